@@ -20,6 +20,11 @@ CHECKS = {
    technique="property-based testing (proptest, in-process): round-trip + independent grammar recogniser + remap metamorphic relation",
    text="In-process generated search over AuthorshipLog values (special and arbitrary path strings, hashes, range multisets, prompt records) and arbitrary parser input. Oracles: serialize->deserialize equality, an independent recogniser of the published v3 grammar applied to the serialised text, parser totality, and the textual base-commit remap (verification export) composed with parse. Exploration level; 60k cases per quick run, 1.5M per thorough run.",
    note="Links /repo as a path dependency with the verif-hooks feature (private remap helper re-exported). Domain = UTF-8 paths without NUL, 7/16-hex hashes, non-empty entries. Paths containing a newline are a recorded finding (F6n)."),
+ "C18": dict(
+   level="exploration", design="DESIGN.md §2 C18",
+   technique="property-based testing (proptest): grammar-generated argument vectors, differential against real git (GIT_TRACE dispatch/alias expansion), recording git stand-in end-to-end",
+   text="Generated argument vectors and alias tables; the in-process parser's reconstruction must be the identity, or (only with a top-level help/version token) a vector that real git treats identically (exit, stdout, stderr compared on twin scratch repositories); the parser's sub-command and git-ai's alias resolution are compared with what real git dispatches/expands per GIT_TRACE; a sample of vectors is run through the real wrapper with a recording stand-in as git_path and the proxied argv compared.",
+   note="Reference = git 2.39.5 in a scratch repository. Token pools are finite (grammar in c18.rs). Known findings F11, F20, F23, F24 are matched by root-cause signature; everything outside those families is strict."),
 }
 
 NOT_YET = "check not built yet (work in progress; see DESIGN.md section 2 for the plan)"
